@@ -85,6 +85,143 @@ def run(cx):
     step = 1500
     for lo in range(0, len(hists), step):
         process(cx, schemas, hists[lo:lo + step])
+    when_family(cx)
+
+
+# ---- law-only family: defaults guarded by `when` (on the node, on its choice, on its case, on a non-presence container) ------------
+
+def when_schema(rng, idx):
+    S, T = tg.SNode, tg.Ty
+    st = T("string")
+    sel, sel2 = S("leaf", "sel", ty=st), S("leaf", "sel2", ty=st)
+    kids = [sel, sel2]
+    guarded = []          # (schema node that is created implicitly, guard leaf, blocking explicit leaf | None)
+    if rng.random() < 0.8:
+        dw = S("leaf", "dw", ty=st, dflt=b"d")
+        dw.when = "../sel = 'on'"
+        kids.append(dw); guarded.append((dw, sel, None))
+    blockers = []
+    if rng.random() < 0.9:
+        x = S("leaf", "x", ty=st, dflt=b"dx")
+        xl = S("leaflist", "xl", ty=st, dflts=[b"a", b"b"])
+        y = S("leaf", "y", ty=T("uint8"), dflt=b"7")
+        nc = S("container", "nc", kids=[y])
+        inner = [x] + ([xl] if rng.random() < 0.6 else []) + ([nc] if rng.random() < 0.6 else [])
+        ca = S("case", "ca", kids=inner)
+        z = S("leaf", "z", ty=st)
+        cb = S("case", "cb", kids=[z])
+        ch = S("choice", "ch", dflt="ca", kids=[ca, cb])
+        if rng.random() < 0.5:
+            ch.when = "sel = 'on'"            # context node of a choice / case: the closest data ancestor
+        else:
+            ca.when = "sel = 'on'"
+            blockers.append(z)                # data of the other case (no when there) switch the case
+        kids.append(ch)
+        for n in inner:
+            guarded.append((n, sel, z if z in blockers else None))
+    if rng.random() < 0.7:
+        w = S("leaf", "w", ty=st, dflt=b"dw")
+        wc = S("container", "wc", kids=[w])
+        wc.when = "../sel2 = 'on'"
+        kids.append(wc); guarded.append((wc, sel2, None))
+    c = S("container", "c", presence=True, kids=kids)
+    s = vg.XSchema("vw%02d" % idx, [c])
+    return s, c, sel, sel2, guarded, blockers
+
+
+def when_family(cx):
+    """Implementation-only laws (the model has no XPath): implicit nodes below a `when` exist after validation exactly while the
+    condition holds — on the node itself, inherited from its choice or case, or on a non-presence container — through histories
+    that switch the conditions on and off; every validation must accept, be idempotent and report an exact change set."""
+    rng = cx.sub_rng("when")
+    schemas, hists, expect = [], [], {}
+    for i in range(cx.n(24, 120)):
+        s, c, sel, sel2, guarded, blockers = when_schema(rng, i)
+        if not guarded:
+            continue
+        schemas.append(s)
+        for _ in range(cx.n(6, 20)):
+            state = {sel.sid: None, sel2.sid: None}
+            blk = {b.sid: False for b in blockers}
+            steps, exp = [], []
+            first = True
+            for _v in range(rng.randrange(2, 6)):
+                # edit: set / change / remove the guard leaves, add or remove the data of the other case
+                ops = []
+                for g in (sel, sel2):
+                    new = rng.choice([b"on", b"on", b"off", None]) if rng.random() < 0.7 or first else state[g.sid]
+                    if new != state[g.sid]:
+                        if not first:
+                            if state[g.sid] is not None:
+                                ops.append("D:%d/%d" % (c.sid, g.sid))
+                            if new is not None:
+                                ops.append("C:%d:%s" % (c.sid, tg.tok([tg.DN(g, new)])))
+                        state[g.sid] = new
+                if first:
+                    ck = [tg.DN(g, state[g.sid]) for g in (sel, sel2) if state[g.sid] is not None]
+                    ops.append("C:-:%s" % tg.tok([tg.DN(c, None, ck)]))
+                    first = False
+                for b in blockers:
+                    want = rng.random() < 0.3
+                    if want != blk[b.sid]:
+                        ops.append(("C:%d:%s" % (c.sid, tg.tok([tg.DN(b, b"zz")]))) if want else ("D:%d/%d" % (c.sid, b.sid)))
+                        blk[b.sid] = want
+                steps += ops + ["V"]
+                present = set()
+                for n, g, b in guarded:
+                    ch_blocked = any(blk.values()) if n.parent is not None and n.parent.kind == "case" else False
+                    if state[g.sid] == b"on" and not ch_blocked:
+                        present.add(n.name)
+                exp.append((sorted(present), sorted(n.name for n, _, _ in guarded)))
+            h = Hist(s, steps, [], [[] for _ in range(8)], 0)
+            h.k = len(hists)
+            hists.append(h)
+            expect[h.k] = exp
+    lines, lawl = [], []
+    for h in hists:
+        d, x = tg.hx(h.s.dsl()), tg.hx(h.s.xdsl())
+        lines.append("w%d %s hist %s %s %d %s" % (h.k, COMP, d, x, h.opts, " ".join(h.steps)))
+        lawl.append("wl%d %s histlaw %s %d %s" % (h.k, COMP, d, h.opts, " ".join(h.steps)))
+    ri = vc.run_impl(cx, HARNESS, schemas, lines)
+    rl = vc.run_impl(cx, HARNESS, schemas, lawl)
+    for h in hists:
+        r, l = ri.get("w%d" % h.k, ["err", "NoReply"]), rl.get("wl%d" % h.k, ["err", "NoReply"])
+        if r[0] != "ok":
+            if r[:2] != ["err", "Crash"]:
+                cx.fail(COMP, "hist op failed: " + " ".join(r[:2]), payload(h, "harness", 0))
+            continue
+        f = fields(r)
+        lf = fields(l) if l[0] == "ok" else {}
+        for vi, (present, allg) in enumerate(expect[h.k]):
+            cx.count(("when", h.s.name, tuple(h.steps), vi), True, "law:when-validation")
+            e = f.get("E%d" % vi)
+            if e is not None:
+                cx.fail(COMP, "validation %d rejects a valid tree whose only `when`-guarded nodes are implicit: %s" % (vi, e.split(":")[0]),
+                        payload(h, "when-accepts", vi, errors=e))
+                break
+            T = f.get("T%d" % vi)
+            if T is None:
+                break
+            names = set()
+
+            def walk(nodes):
+                for n in nodes:
+                    names.add(n.sn.name)
+                    walk(n.kids)
+            walk(tg.untok(h.s, T))
+            got = sorted(n for n in allg if n in names)
+            if got != present:
+                cx.fail(COMP, "implicit nodes under `when` after validation %d: %s, expected %s" % (vi, got, present),
+                        payload(h, "when-implicit", vi, tree=tg.pretty(h.s, tg.untok(h.s, T))[:2000]))
+                break
+            idem, same = lf.get("idem%d" % vi), lf.get("same%d" % vi)
+            if idem is not None and (idem, same) != ("empty", "1"):
+                cx.fail(COMP, "a second validation changes a tree with `when`-guarded defaults (%s)" % idem, payload(h, "when-idempotent", vi))
+                break
+            ap, eq = lf.get("apply%d" % vi), lf.get("eq%d" % vi)
+            if ap is not None and (ap, eq) != ("Success", "1"):
+                cx.fail(COMP, "the change set of a validation with `when`-guarded defaults is not exact (%s)" % ap, payload(h, "when-valdiff", vi))
+                break
 
 
 def fields(reply):
